@@ -108,6 +108,19 @@ func (w *watcher) fireOnChange(evt fsnotify.Event) {
 	w.mut.Unlock()
 
 	for _, listener := range listeners {
-		go listener.OnChanged(w.l.Level(zerolog.InfoLevel))
+		go w.notify(listener, evt.Name)
 	}
+}
+
+func (w *watcher) notify(listener ChangeListener, file string) {
+	// a listener, which cannot cope with the new contents of the file (e.g. a key store
+	// with unsupported or no keys) must not terminate the process. The listener keeps
+	// its previous state in that case.
+	defer func() {
+		if rec := recover(); rec != nil {
+			w.l.Error().Str("_file", file).Msgf("Reloading failed: %v", rec)
+		}
+	}()
+
+	listener.OnChanged(w.l.Level(zerolog.InfoLevel))
 }
